@@ -325,6 +325,9 @@ type kssRun struct {
 	labels      []string
 	keysSlice   []*gabikeys.PublicKey
 	partic      []bool
+
+	challengeMatch bool
+	userChallenge  *big.Int
 }
 
 // kssPrepare runs steps 1-4 (everything before the server's response).
@@ -368,6 +371,9 @@ func (r *kssRun) kssFinish(builders ProofBuilderList) (ProofList, error) {
 	if r.proofP, err = KeyshareResponse(r.kssSecret, r.kssRandom, r.commRequest, r.respRequest, r.keys); err != nil {
 		return nil, err
 	}
+	// compare now: merging ProofP into the proofs overwrites the (shared) challenge object in place
+	r.challengeMatch = r.proofP != nil && r.proofP.C != nil && r.proofP.C.Cmp(r.challenge) == 0
+	r.userChallenge = new(big.Int).Set(r.challenge)
 	proofPs := make([]*ProofP, len(builders))
 	for i := range builders {
 		if r.partic[i] {
